@@ -154,6 +154,7 @@ impl Builder {
             }
             Term::Path(p) => self.arena.add(mk_path(p)),
             Term::FieldName(s) => self.arena.add(aml::Name::new_field_name(std::str::from_utf8(s).unwrap())),
+            Term::Empty => self.arena.add(aml::Name::new_field_name("")),
             Term::Name(p, d) => {
                 let c = self.child(d);
                 self.arena.add(aml::Name::new(mk_path(p), c))
